@@ -85,14 +85,14 @@ pub fn eval(n: &Node, at: C) -> R {
                 PostOp::Deg => {
                     let r = v * crate::ev_f64::DEG;
                     match tol_of(q) {
-                        Some(t) if finite(r) => RV::Val(r, Q::Tol(t * crate::ev_f64::DEG + r.norm() * 1e-12)),
+                        Some(t) if finite(r) && r.norm() < 1e300 => RV::Val(r, Q::Tol(t * crate::ev_f64::DEG + r.norm() * 1e-12)),
                         _ => RV::Val(r, Q::Skip),
                     }
                 }
                 PostOp::Rad => {
                     let r = v * crate::ev_f64::RAD;
                     match tol_of(q) {
-                        Some(t) if finite(r) => RV::Val(r, Q::Tol(t * crate::ev_f64::RAD + r.norm() * 1e-9)),
+                        Some(t) if finite(r) && r.norm() < 1e300 => RV::Val(r, Q::Tol(t * crate::ev_f64::RAD + r.norm() * 1e-9)),
                         _ => RV::Val(r, Q::Skip),
                     }
                 }
